@@ -27,6 +27,7 @@ def tau(scale: float) -> float:
     return 1e-5 * max(1.0, abs(scale))
 
 
+MAY_COUNT = 0  # number of band() calls that landed inside the band (verdict indeterminate)
 EXACT = False  # boundary-builder instances: arithmetic is exact, so equality is decidable (tau = 0)
 
 
@@ -40,6 +41,8 @@ def band(slack: float, scale: float = 1.0) -> str:
         return "must"
     if slack < -t:
         return "not"
+    global MAY_COUNT
+    MAY_COUNT += 1
     return "may"
 
 
@@ -720,9 +723,13 @@ class PDP(DepotRef):
         acts = list(actions)
         v = []
         if self.force:
-            if not acts or acts[0] != 0:
+            # the tour is a cycle through the depot: the single depot visit may stand at either end
+            if acts and acts[0] == 0:
+                acts = acts[1:]
+            elif acts and acts[-1] == 0:
+                acts = acts[:-1]
+            else:
                 v.append(("start_at_depot", 1.0))
-            acts = acts[1:]
         if 0 in acts:
             v.append(("depot_mid_tour", 1.0))
         v += once_violations([a for a in acts if a != 0], self.n)
